@@ -16,23 +16,27 @@ theorem stat_go_exists (fs : FS) : ∀ (l : List Bytes), (∀ q ∈ l, fs.kindOf
   | [q], h => by
     have := h q (by simp)
     simp only [FS.stat.go]
-    cases hk : fs.kindOf q with
-    | none => exact absurd hk this
-    | some k => simp
+    split
+    · simp
+    · cases hk : fs.kindOf q with
+      | none => exact absurd hk this
+      | some k => simp
   | q :: q2 :: qs, h => by
     have := h q (by simp)
     simp only [FS.stat.go]
-    cases hk : fs.kindOf q with
-    | none => exact absurd hk this
-    | some k =>
-      cases k with
-      | dir => exact stat_go_exists fs (q2 :: qs) (fun x hx => h x (by simp [hx]))
-      | file n => simp
+    split
+    · simp
+    · cases hk : fs.kindOf q with
+      | none => exact absurd hk this
+      | some k =>
+        cases k with
+        | dir => exact stat_go_exists fs (q2 :: qs) (fun x hx => h x (by simp [hx]))
+        | file n => simp
 
 /-- in a closed file system, Stat does not say "does not exist" about a path that exists -/
 theorem stat_exists (fs : FS) (hc : fs.Closed) (es : List Bytes) (hg : GoodList es) (h : fs.lookup (key es) ≠ none) :
     fs.stat (key es) ≠ .error .notExist := by
-  simp only [FS.stat, pathRefusal_key hg, isAmbient_key hg, Bool.false_eq_true, if_false]
+  simp only [FS.stat, hasNul_key hg, isAmbient_key hg, Bool.false_eq_true, if_false]
   apply stat_go_exists
   intro q hq
   rw [prefixesOf_key hg] at hq
